@@ -84,6 +84,20 @@ theorem Scores.nodup_incr {m : Scores} (k : String) (h : m.keys.Nodup) : (m.incr
     simp at hb; subst hb
     exact fun e => hk (e ▸ ha)
 
+theorem Scores.keys_mergeMax (m : Scores) (k : String) (v : Int) :
+    (m.mergeMax k v).keys = if k ∈ m.keys then m.keys else m.keys ++ [k] := by
+  induction m with
+  | nil => simp [Scores.mergeMax, Scores.keys]
+  | cons e m ih =>
+    obtain ⟨k', v'⟩ := e
+    by_cases h : k' = k
+    · subst h; simp [Scores.mergeMax, Scores.keys]
+    · have ih' : List.map (·.1) (Scores.mergeMax m k v)
+          = if k ∈ List.map (·.1) m then List.map (·.1) m else List.map (·.1) m ++ [k] := ih
+      have hne : ¬ k = k' := fun e => h e.symm
+      simp only [Scores.mergeMax, Scores.keys, h, if_false, List.map_cons, List.mem_cons, hne, false_or, ih']
+      split <;> simp
+
 theorem Scores.get_incr_self (m : Scores) (k : String) : (m.incr k).get k = m.get k + 1 := by
   induction m with
   | nil => simp [Scores.incr, Scores.get]
@@ -399,10 +413,16 @@ theorem nodup_of_map {α β : Type} (f : α → β) {l : List α} (h : (l.map f)
   rw [List.pairwise_map] at h
   exact h.imp (fun {a b} hab (e : a = b) => hab (congrArg f e))
 
-theorem source_keys_nodup {st : State} (h : st.WF) : st.source.keys.Nodup := by
+theorem source_keys_nodup {env : Env} {st : State} (h : st.WF env) : st.source.keys.Nodup := by
   unfold State.source; split
   · exact h.1
-  · exact h.2
+  · exact h.2.1
+
+theorem source_canonical {env : Env} {st : State} (h : st.WF env) :
+    ∀ k ∈ st.source.keys, Canonical env k := by
+  unfold State.source; split
+  · exact h.2.2.1
+  · exact fun k hk => (h.2.2.2.1 k hk).1
 
 theorem goMin_nonneg {a : Nat} {m : Int} (hm : 0 ≤ m) : 0 ≤ goMin (a : Int) m := by
   unfold goMin; split <;> omega
@@ -429,12 +449,13 @@ theorem synchronize_eq_of_panic {env : Env} {reach : String → String → Bool}
   simp only [synchronize, selectOutbounds, h]
 
 theorem round_ok (env : Env) (reach : String → String → Bool) (order : Scores → Scores)
-    (shuffle : List Sender → List Sender) (st : State) (hwf : st.WF) (hmax : 0 ≤ st.max)
-    (ho : Rearranges order) (hs : Rearranges shuffle) :
+    (shuffle : List Sender → List Sender) (st : State) (hwf : st.WF env) (hmax : 0 ≤ st.max)
+    (hT : env.TargetIsJoin) (ho : Rearranges order) (hs : Rearranges shuffle) :
     RoundOK env reach st (synchronize env reach order shuffle st) := by
   have hcp : (candidates env st.hostValue reach (order st.source)).Perm
       (candidates env st.hostValue reach st.source) := (ho st.source).filterMap _
   have hsrc := source_keys_nodup hwf
+  have hcanon := source_canonical hwf
   have hord : (order st.source).keys.Nodup := by
     have hp : (order st.source).keys.Perm st.source.keys := (ho st.source).map _
     exact hp.nodup_iff.2 hsrc
@@ -469,19 +490,34 @@ theorem round_ok (env : Env) (reach : String → String → Bool) (order : Score
       have := hl.map (·.value); rwa [List.map_map] at this
     have h3 : (cands.map (·.1.value)).Nodup := by rw [← hcands]; exact candidates_values_nodup hord
     exact h1.nodup (h2.nodup_iff.2 h3)
-  refine ⟨rfl, ?_, hcnt, hvals, ?_, ?_, ?_, ?_, ?_, ⟨rfl, rfl, rfl, rfl, rfl, rfl⟩⟩
-  · show (outs.length : Int) ≤ st.max
-    omega
-  · intro o ho'
+  have hnotself : ∀ o ∈ outs, o.value ≠ st.hostValue := by
+    intro o ho'
     obtain ⟨sc, hc⟩ := hmem o ho'
     exact (hmc.1 hc).2.1
-  · intro o ho'
+  have hknown : ∀ o ∈ outs, o.value ∈ st.source.keys := by
+    intro o ho'
     obtain ⟨sc, hc⟩ := hmem o ho'
     exact List.mem_map.2 ⟨(o.value, sc), (hmc.1 hc).1, rfl⟩
-  · intro o ho'
+  have hreach : ∀ o ∈ outs, ∃ ip port, env.parse o.value = some (ip, port) ∧ reach ip port = true ∧
+      o = ⟨o.value, ip, port, env.senderTarget ip port⟩ := by
+    intro o ho'
     obtain ⟨sc, hc⟩ := hmem o ho'
     obtain ⟨_, _, ip, port, hp, hr, he⟩ := hmc.1 hc
     exact ⟨ip, port, hp, hr, he⟩
+  -- every outbound was created for the endpoint its (canonical) value spells, and reports that value
+  have hjoin : ∀ o ∈ outs, o.value = env.join o.ip o.port ∧ o.target = o.value := by
+    intro o ho'
+    obtain ⟨ip, port, hp, _, he⟩ := hreach o ho'
+    obtain ⟨ip', port', hp', hj⟩ := hcanon _ (hknown o ho')
+    rw [hp] at hp'; cases hp'
+    have h1 : o.ip = ip := by rw [he]
+    have h2 : o.port = port := by rw [he]
+    have h3 : o.target = env.senderTarget ip port := by rw [he]
+    rw [h1, h2, h3, hT ip port, hj]
+    exact ⟨rfl, rfl⟩
+  refine ⟨rfl, ?_, hcnt, hvals, hnotself, hknown, hreach, ?_, ?_, ?_, ?_, ⟨rfl, rfl, rfl, rfl, rfl, rfl⟩⟩
+  · show (outs.length : Int) ≤ st.max
+    omega
   · intro o ho' so hso v sv hcand hv
     obtain ⟨sx, hxc, hbest⟩ := hok.best o ho'
     have hsx : sx = so := fst_unique hsrc (hmc.1 hxc).1 hso
@@ -492,8 +528,28 @@ theorem round_ok (env : Env) (reach : String → String → Bool) (order : Score
     refine hbest _ sv hy ?_
     intro hin
     exact hv (List.mem_map.2 ⟨_, hin, rfl⟩)
+  · show (outs.map (fun o => (o.ip, o.port))).Nodup
+    unfold List.Nodup at hvals ⊢
+    rw [List.pairwise_map] at hvals ⊢
+    refine hvals.imp_of_mem ?_
+    intro a b ha hb hne heq
+    apply hne
+    have h1 : a.ip = b.ip := congrArg Prod.fst heq
+    have h2 : a.port = b.port := congrArg Prod.snd heq
+    rw [(hjoin a ha).1, (hjoin b hb).1, h1, h2]
+  · intro o ho' heq
+    have h1 : o.ip = st.hostIp := congrArg Prod.fst heq
+    have h2 : o.port = st.hostPort := congrArg Prod.snd heq
+    apply hnotself o ho'
+    rw [(hjoin o ho').1, h1, h2, hwf.2.2.2.2]
   · refine ⟨cands.map (·.1.value), hcp.map _, ?_⟩
-    rfl
+    show Outcome.ok _ = Outcome.ok _
+    congr 1
+    apply List.map_congr_left
+    intro o ho'
+    show (o, fanoutFor (targetValuesOf st.hostValue cands) o) = _
+    unfold fanoutFor targetValuesOf
+    rw [(hjoin o ho').2]
 
 /-! ## AddTargets / Incentive -/
 
@@ -512,33 +568,51 @@ theorem acceptable_congr {env : Env} {a b : State} (h : a.hostPort = b.hostPort)
     Acceptable env a v ↔ Acceptable env b v := by
   unfold Acceptable; rw [h]
 
+theorem acceptedAs_congr {env : Env} {a b : State} (h : a.hostPort = b.hostPort) (v k : String) :
+    AcceptedAs env a v k ↔ AcceptedAs env b v k := by
+  unfold AcceptedAs; rw [h]
+
+/-- the canonical key of an accepted value is canonical and acceptable -/
+theorem acceptedAs_key {env : Env} (hR : env.RoundTrip) {st : State} {v k : String}
+    (h : AcceptedAs env st v k) : Canonical env k ∧ Acceptable env st k := by
+  obtain ⟨ip, port, hp, hk, hn⟩ := h
+  have := hR v ip port hp
+  subst hk
+  exact ⟨⟨ip, port, this, rfl⟩, ⟨ip, port, this, hn⟩⟩
+
+theorem wf_set_scores {env : Env} {st : State} (h : st.WF env) (m : Scores) (hnd : m.keys.Nodup)
+    (hall : ∀ k ∈ m.keys, Canonical env k ∧ Acceptable env st k) :
+    ({ st with scores := m } : State).WF env :=
+  ⟨h.1, hnd, h.2.2.1, hall, h.2.2.2.2⟩
+
 theorem addTarget_cases (env : Env) (st : State) (v : String) :
     (addTarget env st v = st) ∨
-    (addTarget env st v = { st with scores := st.scores ++ [(v, 0)] } ∧ v ∉ st.scores.keys ∧
-      Acceptable env st v) := by
-  unfold addTarget
-  split
-  · exact Or.inl rfl
-  · next ip port hp =>
-    simp only
+    (∃ k, addTarget env st v = { st with scores := st.scores ++ [(k, 0)] } ∧ k ∉ st.scores.keys ∧
+      AcceptedAs env st v k) := by
+  cases hp : env.parse v with
+  | none => left; simp only [addTarget, newTargetFromValue, hp]
+  | some p =>
+    obtain ⟨ip, port⟩ := p
+    simp only [addTarget, newTargetFromValue, hp]
     split
     · next hc =>
       rw [Bool.and_eq_true, Bool.not_eq_true'] at hc
-      refine Or.inr ⟨rfl, ?_, ip, port, hp, ?_⟩
+      refine Or.inr ⟨env.join ip port, rfl, ?_, ip, port, hp, rfl, ?_⟩
       · intro hin; have := (Scores.has_iff _ _).2 hin; rw [this] at hc; exact absurd hc.1 (by simp)
       · have := hc.2; unfold sameNetwork at this; rw [beq_iff_eq] at this; exact this.symm
     · exact Or.inl rfl
 
-theorem addTarget_accepts {env : Env} {st : State} {v : String} (h : Acceptable env st v) :
-    v ∈ (addTarget env st v).scores.keys := by
-  obtain ⟨ip, port, hp, hn⟩ := h
-  unfold addTarget
+theorem addTarget_accepts {env : Env} {st : State} {v k : String} (h : AcceptedAs env st v k) :
+    k ∈ (addTarget env st v).scores.keys := by
+  obtain ⟨ip, port, hp, hk, hn⟩ := h
+  subst hk
+  unfold addTarget newTargetFromValue
   rw [hp]
   simp only
-  by_cases hk : st.scores.has v = true
+  by_cases hk : st.scores.has (env.join ip port) = true
   · simp only [hk, Bool.not_true, Bool.false_and]
     exact (Scores.has_iff _ _).1 hk
-  · have hk' : st.scores.has v = false := by simpa using hk
+  · have hk' : st.scores.has (env.join ip port) = false := by simpa using hk
     have hsn : sameNetwork st.hostPort port = true := by
       unfold sameNetwork; rw [beq_iff_eq]; exact hn.symm
     simp only [hk', hsn, Bool.not_false, Bool.and_self, if_true]
@@ -546,14 +620,20 @@ theorem addTarget_accepts {env : Env} {st : State} {v : String} (h : Acceptable 
 
 theorem addTarget_config (env : Env) (st : State) (v : String) :
     SameConfig (addTarget env st v) st ∧ (addTarget env st v).senders = st.senders := by
-  rcases addTarget_cases env st v with h | ⟨h, _⟩ <;> rw [h]
+  rcases addTarget_cases env st v with h | ⟨k, h, _⟩ <;> rw [h]
   · exact ⟨SameConfig.refl _, rfl⟩
   · exact ⟨⟨rfl, rfl, rfl, rfl, rfl⟩, rfl⟩
 
-theorem addTarget_wf {env : Env} {st : State} (v : String) (h : st.WF) : (addTarget env st v).WF := by
-  rcases addTarget_cases env st v with h' | ⟨h', hk, _⟩ <;> rw [h']
+theorem addTarget_wf {env : Env} (hR : env.RoundTrip) {st : State} (v : String) (h : st.WF env) :
+    (addTarget env st v).WF env := by
+  rcases addTarget_cases env st v with h' | ⟨k, h', hk, hacc⟩ <;> rw [h']
   · exact h
-  · exact ⟨h.1, Scores.nodup_addNew 0 h.2 hk⟩
+  · refine wf_set_scores h _ (Scores.nodup_addNew 0 h.2.1 hk) ?_
+    intro k' hk'
+    have : k' ∈ st.scores.keys ++ [k] := by rwa [← Scores.keys_addNew]
+    rcases List.mem_append.1 this with h1 | h1
+    · exact h.2.2.2.1 k' h1
+    · simp only [List.mem_singleton] at h1; subst h1; exact acceptedAs_key hR hacc
 
 theorem addTargets_config (env : Env) : ∀ (vs : List String) (st : State),
     SameConfig (addTargets env st vs) st ∧ (addTargets env st vs).senders = st.senders
@@ -563,62 +643,145 @@ theorem addTargets_config (env : Env) : ∀ (vs : List String) (st : State),
     have h1 := addTarget_config env st v
     exact ⟨ih.1.trans h1.1, ih.2.trans h1.2⟩
 
-theorem addTargets_wf (env : Env) : ∀ (vs : List String) (st : State), st.WF → (addTargets env st vs).WF
+theorem addTargets_wf {env : Env} (hR : env.RoundTrip) :
+    ∀ (vs : List String) (st : State), st.WF env → (addTargets env st vs).WF env
   | [], _, h => h
-  | v :: vs, st, h => addTargets_wf env vs (addTarget env st v) (addTarget_wf v h)
+  | v :: vs, st, h => addTargets_wf hR vs (addTarget env st v) (addTarget_wf hR v h)
 
 theorem addTargets_old (env : Env) : ∀ (vs : List String) (st : State) (e : String × Int),
     e ∈ st.scores → e ∈ (addTargets env st vs).scores
   | [], _, _, h => h
   | v :: vs, st, e, h => by
     refine addTargets_old env vs (addTarget env st v) e ?_
-    rcases addTarget_cases env st v with h' | ⟨h', _⟩ <;> rw [h']
+    rcases addTarget_cases env st v with h' | ⟨k, h', _⟩ <;> rw [h']
     · exact h
     · exact List.mem_append_left _ h
 
 theorem addTargets_new (env : Env) : ∀ (vs : List String) (st : State) (e : String × Int),
     e ∈ (addTargets env st vs).scores →
-      e ∈ st.scores ∨ (e.2 = 0 ∧ e.1 ∈ vs ∧ e.1 ∉ st.scores.keys ∧ Acceptable env st e.1)
+      e ∈ st.scores ∨ (e.2 = 0 ∧ e.1 ∉ st.scores.keys ∧ ∃ v ∈ vs, AcceptedAs env st v e.1)
   | [], _, _, h => Or.inl h
   | v :: vs, st, e, h => by
     have hcfg := (addTarget_config env st v).1
-    rcases addTargets_new env vs (addTarget env st v) e h with h1 | ⟨h0, hin, hnk, hacc⟩
-    · rcases addTarget_cases env st v with h' | ⟨h', hk, hacc⟩
+    rcases addTargets_new env vs (addTarget env st v) e h with h1 | ⟨h0, hnk, w, hw, hacc⟩
+    · rcases addTarget_cases env st v with h' | ⟨k, h', hk, hacc⟩
       · rw [h'] at h1; exact Or.inl h1
       · rw [h'] at h1
         rcases List.mem_append.1 h1 with h1 | h1
         · exact Or.inl h1
         · simp only [List.mem_singleton] at h1
           subst h1
-          exact Or.inr ⟨rfl, List.mem_cons_self, hk, hacc⟩
-    · have hacc' : Acceptable env st e.1 := (acceptable_congr hcfg.2.1 _).1 hacc
+          exact Or.inr ⟨rfl, hk, v, List.mem_cons_self, hacc⟩
+    · have hacc' : AcceptedAs env st w e.1 := (acceptedAs_congr hcfg.2.1 _ _).1 hacc
       have hnk' : e.1 ∉ st.scores.keys := by
         intro hin'
         apply hnk
         obtain ⟨e', he', hk'⟩ := List.mem_map.1 hin'
         have : e' ∈ (addTarget env st v).scores := by
-          rcases addTarget_cases env st v with h' | ⟨h', _⟩ <;> rw [h']
+          rcases addTarget_cases env st v with h' | ⟨k, h', _⟩ <;> rw [h']
           · exact he'
           · exact List.mem_append_left _ he'
         exact List.mem_map.2 ⟨e', this, hk'⟩
-      exact Or.inr ⟨h0, List.mem_cons_of_mem _ hin, hnk', hacc'⟩
+      exact Or.inr ⟨h0, hnk', w, List.mem_cons_of_mem _ hw, hacc'⟩
 
 theorem addTargets_keys_mono (env : Env) (vs : List String) (st : State) {k : String}
     (h : k ∈ st.scores.keys) : k ∈ (addTargets env st vs).scores.keys := by
   obtain ⟨e, he, hk⟩ := List.mem_map.1 h
   exact List.mem_map.2 ⟨e, addTargets_old env vs st e he, hk⟩
 
-theorem addTargets_complete (env : Env) : ∀ (vs : List String) (st : State) (v : String),
-    v ∈ vs → Acceptable env st v → v ∈ (addTargets env st vs).scores.keys
-  | [], _, _, h, _ => by cases h
-  | w :: vs, st, v, h, hacc => by
+theorem addTargets_complete (env : Env) : ∀ (vs : List String) (st : State) (v k : String),
+    v ∈ vs → AcceptedAs env st v k → k ∈ (addTargets env st vs).scores.keys
+  | [], _, _, _, h, _ => by cases h
+  | w :: vs, st, v, k, h, hacc => by
     have hcfg := (addTarget_config env st w).1
     rcases List.mem_cons.1 h with rfl | h
     · exact addTargets_keys_mono env vs _ (addTarget_accepts hacc)
-    · exact addTargets_complete env vs (addTarget env st w) v h ((acceptable_congr hcfg.2.1 _).2 hacc)
+    · exact addTargets_complete env vs (addTarget env st w) v k h ((acceptedAs_congr hcfg.2.1 _ _).2 hacc)
 
-theorem incentive_wf {st : State} (v : String) (h : st.WF) : (incentive st v).WF :=
-  ⟨h.1, Scores.nodup_incr v h.2⟩
+theorem incentive_cases (env : Env) (st : State) (v : String) :
+    (incentive env st v = st ∧ ¬ ∃ k, AcceptedAs env st v k) ∨
+    (∃ k, AcceptedAs env st v k ∧ incentive env st v = { st with scores := st.scores.incr k }) := by
+  cases hp : env.parse v with
+  | none =>
+    left
+    refine ⟨by simp only [incentive, newTargetFromValue, hp], ?_⟩
+    rintro ⟨k, ip, port, hp', _⟩; rw [hp] at hp'; cases hp'
+  | some p =>
+    obtain ⟨ip, port⟩ := p
+    simp only [incentive, newTargetFromValue, hp]
+    split
+    · next hc =>
+      have hn : networkId port = networkId st.hostPort := by
+        unfold sameNetwork at hc; rw [beq_iff_eq] at hc; exact hc.symm
+      exact Or.inr ⟨env.join ip port, ⟨ip, port, hp, rfl, hn⟩, rfl⟩
+    · next hc =>
+      refine Or.inl ⟨rfl, ?_⟩
+      rintro ⟨k, ip2, port2, hp', _, hn⟩
+      rw [hp] at hp'; cases hp'
+      apply hc; unfold sameNetwork; rw [beq_iff_eq]; exact hn.symm
+
+theorem incentive_config (env : Env) (st : State) (v : String) :
+    SameConfig (incentive env st v) st ∧ (incentive env st v).senders = st.senders := by
+  rcases incentive_cases env st v with ⟨h, _⟩ | ⟨k, _, h⟩ <;> rw [h]
+  · exact ⟨SameConfig.refl _, rfl⟩
+  · exact ⟨⟨rfl, rfl, rfl, rfl, rfl⟩, rfl⟩
+
+theorem incentive_wf {env : Env} (hR : env.RoundTrip) {st : State} (v : String) (h : st.WF env) :
+    (incentive env st v).WF env := by
+  rcases incentive_cases env st v with ⟨h', _⟩ | ⟨k, hacc, h'⟩ <;> rw [h']
+  · exact h
+  · refine wf_set_scores h _ (Scores.nodup_incr k h.2.1) ?_
+    intro k' hk'
+    rw [Scores.keys_incr] at hk'
+    split at hk'
+    · exact h.2.2.2.1 k' hk'
+    · rcases List.mem_append.1 hk' with h1 | h1
+      · exact h.2.2.2.1 k' h1
+      · simp only [List.mem_singleton] at h1; subst h1; exact acceptedAs_key hR hacc
+
+/-! ## NewNeighborhood -/
+
+theorem addSeed_cases (env : Env) (acc : Scores) (e : String × Int) :
+    addSeed env acc e = acc ∨
+    ∃ ip port, env.parse e.1 = some (ip, port) ∧ addSeed env acc e = acc.mergeMax (env.join ip port) e.2 := by
+  cases hp : env.parse e.1 with
+  | none => left; simp only [addSeed, newTargetFromValue, hp]
+  | some p =>
+    obtain ⟨ip, port⟩ := p
+    exact Or.inr ⟨ip, port, rfl, by simp only [addSeed, newTargetFromValue, hp]⟩
+
+theorem seeds_fold_wf {env : Env} (hR : env.RoundTrip) : ∀ (seeds acc : Scores),
+    acc.keys.Nodup → (∀ k ∈ acc.keys, Canonical env k) →
+    (seeds.foldl (addSeed env) acc).keys.Nodup ∧ ∀ k ∈ (seeds.foldl (addSeed env) acc).keys, Canonical env k
+  | [], _, h1, h2 => ⟨h1, h2⟩
+  | e :: seeds, acc, h1, h2 => by
+    refine seeds_fold_wf hR seeds (addSeed env acc e) ?_ ?_
+    · rcases addSeed_cases env acc e with h | ⟨ip, port, _, h⟩ <;> rw [h]
+      · exact h1
+      · rw [Scores.keys_mergeMax]
+        split
+        · exact h1
+        · next hk =>
+          rw [List.nodup_append]
+          refine ⟨h1, by simp, ?_⟩
+          intro a ha b hb
+          simp at hb; subst hb
+          exact fun e => hk (e ▸ ha)
+    · rcases addSeed_cases env acc e with h | ⟨ip, port, hp, h⟩ <;> rw [h]
+      · exact h2
+      · intro k hk
+        rw [Scores.keys_mergeMax] at hk
+        split at hk
+        · exact h2 k hk
+        · rcases List.mem_append.1 hk with h3 | h3
+          · exact h2 k h3
+          · simp only [List.mem_singleton] at h3; subst h3
+            exact ⟨ip, port, hR _ ip port hp, rfl⟩
+
+theorem init_wf {env : Env} (hR : env.RoundTrip) (hostIp hostPort : String) (max : Int) (seeds : Scores) :
+    (State.init env hostIp hostPort max seeds).WF env := by
+  have h := seeds_fold_wf hR seeds [] List.nodup_nil (by intro k hk; cases hk)
+  exact ⟨h.1, List.nodup_nil, h.2, (by intro k hk; cases hk), rfl⟩
 
 /-! ## operation sequences -/
 
@@ -633,27 +796,36 @@ theorem synchronize_config (env : Env) (reach : String → String → Bool) (ord
 theorem step_config (env : Env) (st : State) (op : Op) : SameConfig (step env st op) st := by
   cases op with
   | addTargets vs => exact (addTargets_config env vs st).1
-  | incentive v => exact ⟨rfl, rfl, rfl, rfl, rfl⟩
+  | incentive v => exact (incentive_config env st v).1
   | synchronize r o s => exact (synchronize_config env r o s st).1
 
-theorem step_wf (env : Env) {st : State} (op : Op) (h : st.WF) : (step env st op).WF := by
+theorem step_wf {env : Env} (hR : env.RoundTrip) {st : State} (op : Op) (h : st.WF env) :
+    (step env st op).WF env := by
   cases op with
-  | addTargets vs => exact addTargets_wf env vs st h
-  | incentive v => exact incentive_wf v h
+  | addTargets vs => exact addTargets_wf hR vs st h
+  | incentive v => exact incentive_wf hR v h
   | synchronize r o s =>
     have hc := synchronize_config env r o s st
-    refine ⟨?_, ?_⟩
+    refine ⟨?_, ?_, ?_, ?_, ?_⟩
     · show (synchronize env r o s st).1.seeds.keys.Nodup
       rw [hc.1.2.2.2.2]; exact h.1
     · show (synchronize env r o s st).1.scores.keys.Nodup
       rw [hc.2]; exact List.nodup_nil
+    · show ∀ k ∈ (synchronize env r o s st).1.seeds.keys, Canonical env k
+      rw [hc.1.2.2.2.2]; exact h.2.2.1
+    · show ∀ k ∈ (synchronize env r o s st).1.scores.keys, _
+      rw [hc.2]; intro k hk; cases hk
+    · show (synchronize env r o s st).1.hostValue = env.join (synchronize env r o s st).1.hostIp
+        (synchronize env r o s st).1.hostPort
+      rw [hc.1.1, hc.1.2.1, hc.1.2.2.1]; exact h.2.2.2.2
 
 theorem run_config (env : Env) : ∀ (ops : List Op) (st : State), SameConfig (run env st ops) st
   | [], st => SameConfig.refl st
   | op :: ops, st => (run_config env ops (step env st op)).trans (step_config env st op)
 
-theorem run_wf (env : Env) : ∀ (ops : List Op) (st : State), st.WF → (run env st ops).WF
+theorem run_wf {env : Env} (hR : env.RoundTrip) :
+    ∀ (ops : List Op) (st : State), st.WF env → (run env st ops).WF env
   | [], _, h => h
-  | op :: ops, st, h => run_wf env ops (step env st op) (step_wf env op h)
+  | op :: ops, st, h => run_wf hR ops (step env st op) (step_wf hR op h)
 
 end Neigh
